@@ -270,9 +270,9 @@ def main(tier):
         "normal and exceptional exit. Syntactic whole-package frame obligations: no function writes a module-level "
         "mutable table or stores an alias of one in an object; no function assigns to attributes of a Page obtained "
         "from the memoised get_page. NOT proved: a full reads-before-writes clause over parse/expand, and everything on "
-        "the Lua side (retained modules, loadData cache), which cannot be executed offline. "
+        "the Lua side (retained modules, loadData cache): there is no verifier for Lua, and the bounded tier does not start the sandbox. "
         "B (bounded, not counted as proved): page histories vs fresh contexts.")
-    rep.assumptions += ["Lua-side state is outside this check (sandbox cannot start offline)",
+    rep.assumptions += ["Lua-side state is outside this check (no verifier for Lua; the sandbox can be started offline only with a stand-in for the absent ustring library -- used by C06's probe, not here)",
                         "sqlite and lru_cache contents are covered by C10's memo-coherence contracts"]
     return rep.finish(replayer=replay, expected_min_functions=len(cs))
 
